@@ -328,9 +328,13 @@ func replayChunkLoss(c *rt.Ctx, raw json.RawMessage) string {
 		}
 	}
 	oracle := lossOracle(written, flags, suffix, isPrefix)
+	multi := multiKeyOracle(sc.Ops)
 	var r *ChunkResult
 	InBubble(c.T, func() {
 		r = RunChunk(sc, ChunkOpts{NoModel: true, NoPhys: true, AfterEach: func(i int, op wire.Op, st *fakemcStore, m *refModel, res HRes) (string, string) {
+			if op.Kind == "mget" {
+				return multi(op, res)
+			}
 			if i < readIdx {
 				return "", ""
 			}
